@@ -12,6 +12,8 @@ import (
 	"golang.org/x/tools/go/ssa"
 )
 
+var dbgLabelsG = map[int]string{}
+
 type pathEnd struct{ why string }
 type engineErr struct{ msg string }
 
@@ -44,6 +46,10 @@ type Engine struct {
 	stopOnViolation bool
 	mergeStats int
 	tier string
+	ifShapes map[*ssa.If]*ifShape
+	noIfConv bool
+	ifConverted int
+	dbgLabels map[int]string
 	shard int
 	noModel bool
 	symIdx bool
@@ -819,7 +825,10 @@ func (e *Engine) step(s *State, f *Frame, in ssa.Instruction) {
 	case *ssa.Jump:
 		e.jump(s, f, f.block.Succs[0])
 	case *ssa.If:
-		cv := e.get(s, f, x.Cond).(*Term)
+		cv := e.simp(s, e.get(s, f, x.Cond).(*Term))
+		if !cv.IsConst() && e.tryIfConvert(s, f, x, cv) {
+			return
+		}
 		if e.cond(s, cv) {
 			e.jump(s, f, f.block.Succs[0])
 		} else {
